@@ -113,6 +113,8 @@ class RegRequest:
     base_time: Optional[datetime.datetime] = None
     tpm_name_alg: int = tpm.TPM_ALG_SHA256
     tpm_vendor: str = "id:414D4400"
+    attobj_order: Optional[str] = None                  # the attestation object's members in another order
+    attobj_extra: Optional[dict] = None                 # members a future client might add to the attestation object
     envelope_id: Optional[bytes] = None                 # rawId (and id) of the PublicKeyCredential envelope when they are to
                                                         # differ from the attested credential id (nothing compares the two)
     tpm_san_extra_dnsname_first: bool = False          # a conformant variation: an additional dNSName before the directoryName
@@ -354,7 +356,12 @@ def _attestation_object(b: _Build, att_stmt: dict) -> bytes:
     if b.has("R.fmt-nontext"):
         fmt = fmt.encode("ascii")                       # CBOR byte string instead of text string
     b.meta.update(fmt=fmt, att_stmt=att_stmt)
-    return cbor2.dumps({"fmt": fmt, "attStmt": att_stmt, "authData": b.ad})
+    obj = {"fmt": fmt, "attStmt": att_stmt, "authData": b.ad}
+    if b.req.attobj_order:
+        obj = core.reorder(obj, b.req.attobj_order)
+    if b.req.attobj_extra:
+        obj.update(b.req.attobj_extra)
+    return cbor2.dumps(obj)
 
 
 def _credential(b: _Build, attestation_object: bytes) -> dict:
